@@ -388,12 +388,19 @@ impl FeoxStore {
             sector += sectors_needed as u64;
         }
 
+        let stale_duplicates = retired_extents.len();
         if let Some(now) = recovery_time {
             self.remove_expired_recovery_winners(now, format, &mut retired_extents)?;
         }
 
         if !self.read_only {
-            disk.retire_extents(&retired_extents)?;
+            // retire_extents commits in journal-sized chunks. An expired winner must not be
+            // retired in an earlier chunk than a stale duplicate of its key: a crash between
+            // the two would leave the older generation as the only one on the device, and
+            // the next recovery would bring it back. Duplicates first, winners afterwards.
+            let (duplicates, expired_winners) = retired_extents.split_at(stale_duplicates);
+            disk.retire_extents(duplicates)?;
+            disk.retire_extents(expired_winners)?;
         }
 
         if last_end < total_sectors {
